@@ -30,6 +30,8 @@ func init() {
 			c11HeadEnd(c)
 			c11SniffSnapshot(c)
 			parserHelperRules(c, "C11")
+			// the debug dialer sees the handshake through WrapConn: it must wrap the outermost connection
+			c20DialConn(c)
 		},
 	})
 }
